@@ -34,9 +34,11 @@ theorem equal_symm_partial (a b : Rep) (ha : wf a = true) (hb : wf b = true)
     (fa : frag a = true) (fb : frag b = true) : equal a b = equal b a := by
   have h1 := equal_iff_den_partial a b ha hb fa fb
   have h2 := equal_iff_den_partial b a hb ha fb fa
-  cases h : equal a b <;> cases h' : equal b a <;> simp_all
-  · exact h' (h2.2 (h1.1 h).symm) |>.elim
-  all_goals first | rfl | (exfalso; simp_all)
+  cases h : equal a b <;> cases h' : equal b a
+  · rfl
+  · exact absurd (h1.2 (h2.1 h').symm) (by simp [h])
+  · exact absurd (h2.2 (h1.1 h).symm) (by simp [h'])
+  · rfl
 
 /-- `GenericTuple.Equal` accepts any `Tuple`: outside canonical forms `Equal` is not symmetric -/
 theorem equal_symm_needs_wf :
@@ -90,7 +92,7 @@ theorem wf_unique_partial (a b : Rep) (ha : wf a = true) (hb : wf b = true)
     (fa : frag a = true) (fb : frag b = true) (h : den a = den b) : sameRep a b := by
   have htag : ctorTag a = ctorTag b := by rw [← vtag_den a ha fa, ← vtag_den b hb fb, h]
   cases a <;> cases b <;> simp [ctorTag] at htag <;> simp [frag] at fa fb
-  case num.num x y => simpa [den] using h
+  case num.num x y => simpa [den, sameRep] using h
   case gtuple.gtuple as bs => subst fa; subst fb; trivial
   case charT.charT i c j d => simpa [den, vpair, sameRep] using h
   case byteT.byteT i c j d => simpa [den, vpair, sameRep] using h
@@ -149,7 +151,7 @@ theorem merge_false_before_repair :
   decide
 
 theorem merge_repaired :
-    mergeLeftToRight (.gtuple [("@", .num 0)]) (.gtuple [("@char", .num 97)]) = .ok (.charT 0 97) := by decide
+    mergeLeftToRight (.gtuple [("@", .num 0)]) (.gtuple [("@char", .num 97)]) = .ok (.charT 0 97) := by rfl
 
 /-- `[1, , 3] without (@: 0, @item: 1)` kept the leading hole -/
 theorem array_without_false_before_repair :
@@ -158,20 +160,20 @@ theorem array_without_false_before_repair :
   decide
 
 theorem array_without_repaired :
-    arrWithout [some (.num 1), none, some (.num 3)] 0 2 0 (.num 1) = .array [some (.num 3)] 2 1 := by decide
+    arrWithout [some (.num 1), none, some (.num 3)] 0 2 0 (.num 1) = .array [some (.num 3)] 2 1 := by rfl
 
 /-- `('a' ++ 1\'c') without (@: 0, @char: 97)` kept the leading hole -/
 theorem string_without_false_before_repair :
     wf (strWithoutOld [97, -1, 99] 0 1 0 97) = false ∧
     equal (strWithoutOld [97, -1, 99] 0 1 0 97) (.str [99] 2 0) = false := by decide
 
-theorem string_without_repaired : strWithout [97, -1, 99] 0 1 0 97 = .str [99] 2 0 := by decide
+theorem string_without_repaired : strWithout [97, -1, 99] 0 1 0 97 = .str [99] 2 0 := by rfl
 
 /-- `(@: 0, @byte: 300)` became `(@: 0, @byte: 44)` -/
 theorem special_tuple_false_before_repair :
     newTupleOld [("@", .num 0), ("@byte", .num 300)] = .ok (.byteT 0 44) ∧
     newTuple [("@", .num 0), ("@byte", .num 300)] = .ok (.gtuple [("@", .num 0), ("@byte", .num 300)]) := by
-  decide
+  constructor <;> rfl
 
 /-- XOR-linear set hashes: `{{1, 2}, {3}} = {{1, 3}, {2}}` was true -/
 theorem nested_set_hash_false_before_repair :
@@ -194,6 +196,6 @@ example : let a : Rep := .generic [.generic [.num 1, .str [97, -1, 99] 2 1], .tr
 
 example : let a : Rep := .generic [.num 1, .bytes [1, 2] 3]
           let b : Rep := .generic [.bytes [1, 2] 3, .num 1]
-    wf a = true ∧ wf b = true ∧ frag a = true ∧ frag b = true ∧ den a = den b ∧ a ≠ b := by decide
+    wf a = true ∧ wf b = true ∧ frag a = true ∧ frag b = true ∧ den a = den b ∧ equal a b = true := by decide
 
 end Arrai.C02.Theorems
